@@ -426,7 +426,7 @@ class NsModelWorld(World):
                    "selectors that are falsy ('' / empty list) mean 'not given'",
                    "metadata collections contain only str; URIs are valid PYRO URIs",
                    "remove() is called with exactly one selector"]
-    QUICK_RUNS = 7000
+    QUICK_RUNS = 6000
     CHUNK = 150
     SHRINK_LISTS = ["ops"]
 
